@@ -388,6 +388,6 @@ LAWS = [
         rule='a host list bound as a variable on two parsers, 2-10 operations - edit the list in place (insert, assign, sort, reverse, pop, clear and refill) or look a value up: every MATCH(x, list, 0), INDEX(list, MATCH(..)) and INDEX(list, i) answers from the list as it is now'),
 ]
 
-LEVEL_TEXT = 'Hypothesis exploration with arrays of distinct tagged values so that "some other element" is detectable, over all index positions from -10 to size+10 and all three ways of supplying an array; MATCH against a reference scan written from the statement.'
+LEVEL_TEXT = 'CHOOSE up to the 254-value limit by enumeration; Hypothesis exploration with arrays of distinct tagged values so that "some other element" is detectable, over all index positions from -10 to size+10 and all three ways of supplying an array; MATCH against a reference scan written from the statement.'
 LEVEL_NOTE = 'Trusted: the reference addressing/scan in hx/checks/c18.py. Orientation of flat lists is left open as in the statement (several outcomes accepted).'
 TECHNIQUE = 'Hypothesis property testing with tagged arrays against a reference model; INDEX/MATCH round trip'
